@@ -62,10 +62,26 @@ func doSession(rq *Req) *Resp {
 		it := newInterp("")
 		it.detail = true
 		shared = append(shared, sharedProjection(it))
-		for _, src := range rq.Progs {
+		dir := ""
+		for i, src := range rq.Progs {
 			it.setIO(rq.Stdin)
 			it.rec.take()
 			env := object.NewEnclosedEnv(it.constEnv)
+			if i < len(rq.Helpers) && rq.Helpers[i] != "" {
+				// the program is a file main.pangaea in a directory of its own, next to helper.pangaea
+				if dir == "" {
+					d, err := os.MkdirTemp("", "pvsession")
+					if err != nil {
+						return &Resp{ID: rq.ID, End: "harness-error:" + err.Error()}
+					}
+					dir = d
+					defer os.RemoveAll(dir)
+				}
+				sub := filepath.Join(dir, fmt.Sprintf("t%02d", i))
+				os.MkdirAll(sub, 0o755)
+				os.WriteFile(filepath.Join(sub, "helper.pangaea"), []byte(rq.Helpers[i]), 0o644)
+				env.SetSourceFilePath(filepath.Join(sub, "main.pangaea"))
+			}
 			text := src
 			if rq.Embed == "evalenv" {
 				text = "`" + src + "`.evalEnv"
@@ -81,7 +97,11 @@ func doSession(rq *Req) *Resp {
 				end = evalNode(it, prog, env, rq.Fuel, rq.Depth)
 			}
 			ev := it.rec.take()
-			obs = append(obs, strings.Join(ev, "\x1e")+"\x1d"+end)
+			o := strings.Join(ev, "\x1e") + "\x1d" + end
+			if dir != "" {
+				o = strings.ReplaceAll(o, dir, "<dir>")
+			}
+			obs = append(obs, o)
 			shared = append(shared, sharedProjection(it))
 		}
 	case "runtest":
@@ -91,8 +111,14 @@ func doSession(rq *Req) *Resp {
 			return &Resp{ID: rq.ID, End: "harness-error:" + err.Error()}
 		}
 		defer os.RemoveAll(dir)
+		// every program is the test file of a directory of its own (the driver walks them in order), next to its helper
 		for i, src := range rq.Progs {
-			os.WriteFile(filepath.Join(dir, fmt.Sprintf("t%02d_test.pangaea", i)), []byte(src), 0o644)
+			sub := filepath.Join(dir, fmt.Sprintf("t%02d", i))
+			os.MkdirAll(sub, 0o755)
+			os.WriteFile(filepath.Join(sub, fmt.Sprintf("t%02d_test.pangaea", i)), []byte(src), 0o644)
+			if i < len(rq.Helpers) && rq.Helpers[i] != "" {
+				os.WriteFile(filepath.Join(sub, "helper.pangaea"), []byte(rq.Helpers[i]), 0o644)
+			}
 		}
 		var out bytes.Buffer
 		oldErr := os.Stderr
@@ -107,9 +133,20 @@ func doSession(rq *Req) *Resp {
 		// split the driver's output per file
 		text := strings.ReplaceAll(out.String(), dir, "<dir>")
 		stderr = strings.ReplaceAll(stderr, dir, "<dir>")
+		// one observation per program: the driver's output for the files of its directory (helper first, if any)
 		chunks := strings.Split(text, "run:  ")
+		last := ""
 		for _, c := range chunks[1:] {
-			obs = append(obs, c)
+			sub := ""
+			if strings.HasPrefix(c, "<dir>/t") && len(c) >= 9 {
+				sub = c[:9]
+			}
+			if sub != "" && sub == last {
+				obs[len(obs)-1] += "run:  " + c
+			} else {
+				obs = append(obs, c)
+			}
+			last = sub
 		}
 		if len(obs) > 0 {
 			obs[len(obs)-1] += "\x1dstderr:" + stderr + fmt.Sprintf("\x1dexit:%d", code)
